@@ -22,6 +22,9 @@ func TestC17(t *testing.T) {
 		if c.res == nil {
 			return
 		}
+		if c.res.OldReAdds > 0 {
+			r.Count("scenarios_re_adding_the_original_channel_object", 1)
+		}
 		r.Count("control_calls", int64(c.res.CtlOps))
 		r.Count("removals_or_replacements_with_items_taken", int64(c.res.RemovedWithData))
 		if c.res.CtlOps >= 2 && c.res.RemovedWithData >= 1 && c.res.Terminated {
